@@ -5,11 +5,17 @@
   (`spread … gaps tail` with `GapsOK`), the pipeline   tokenize → levels → parseDictToks   yields exactly
   the tree's documented denotation `denEs`.
 
-    A  `levels_toks`      the hierarchy annotation of a generated token stream is the nesting depth
-    B  `scan_dict/list`   the index-based scanner computes the denotation of the token tree
-    C  `tokenize_spread`  delimiter separation + white-space splitting recovers the token list of any layout
+    A  `levels_toks` (+ `levels_toksV/Xs`)   the hierarchy annotation of a generated token stream is the nesting depth
+    B  `scan_dict`, `scan_list` (invariants `scanEs`, `scanXs`), `C02_scan`
+                                             the index-based scanner computes the denotation of the token tree
+    C  `tokenize_spread`, `toks_all_word_or_delim`
+                                             delimiter separation + white-space splitting recovers the tokens of any layout
     D  `C02_layout_tolerant_tokens`, `C02_layout_independent`
-    E  a concrete instance (non-vacuity)
+    E  `exTree…`, `ex_glued`, `ex_loose`     a concrete instance (non-vacuity)
+
+  Only added hypothesis: `Boundary lvl prev0` in `scan_dict` (decidable, true for `prev0 = []`, which is how the
+  reader calls the scanner); `scan_dict_needs_boundary` refutes the statement without it.
+  `ph_word_not_denoted` shows that `TokWF`'s exclusion of words containing `COMMENT` / `INCLUDE` is needed.
 -/
 import DictIO.Model.Grammar
 
@@ -325,78 +331,7 @@ mutual
       · exact ltoksXs_ge xs l t ht
 end
 
-/-! ## theorems -/
-
-/-! ### A. levels -/
-
-mutual
-  theorem levels_toksV : ∀ (v : Val) (lvl : Int) (rest : List Str), TokWFV v = true →
-      levels lvl (toksV v ++ rest) = ltoksV lvl v ++ levels lvl rest
-    | .leaf x, lvl, rest, h => by
-      cases x with
-      | str w =>
-        simp only [TokWFV, Bool.and_eq_true] at h
-        simp only [toksV, ltoksV, List.cons_append, List.nil_append]
-        exact levels_word lvl rest h.1
-      | _ => simp [TokWFV] at h
-    | .dict es, lvl, rest, h => by
-      simp only [TokWFV] at h
-      simp only [toksV, ltoksV, List.cons_append, List.append_assoc, List.nil_append]
-      rw [levels_open lvl '{' _ (by decide), levels_toksEs es (lvl + 1) _ h,
-        levels_close lvl '}' _ (by decide) (by decide)]
-    | .list xs, lvl, rest, h => by
-      simp only [TokWFV] at h
-      simp only [toksV, ltoksV, List.cons_append, List.append_assoc, List.nil_append]
-      rw [levels_open lvl '(' _ (by decide), levels_toksXs xs (lvl + 1) _ h,
-        levels_close lvl ')' _ (by decide) (by decide)]
-  theorem levels_toksEs : ∀ (es : Entries) (lvl : Int) (rest : List Str), TokWFEs es = true →
-      levels lvl (toksEs es ++ rest) = ltoksEs lvl es ++ levels lvl rest
-    | [], lvl, rest, _ => by simp [toksEs, ltoksEs]
-    | (.int z, v) :: es, lvl, rest, h => by simp [TokWFEs] at h
-    | (.str k, .leaf x) :: es, lvl, rest, h => by
-      cases x with
-      | str w =>
-        simp only [TokWFEs, Bool.and_eq_true] at h
-        obtain ⟨h1, hes⟩ := h
-        simp only [toksEs, ltoksEs]
-        by_cases hp : isPhTok k = true
-        · simp only [hp, if_true, Bool.and_eq_true] at h1 ⊢
-          simp only [List.cons_append, List.nil_append]
-          rw [levels_word lvl _ h1.1, levels_toksEs es lvl rest hes]
-        · simp only [hp, if_false, Bool.and_eq_true, Bool.false_eq_true] at h1 ⊢
-          simp only [List.cons_append, List.nil_append]
-          rw [levels_word lvl _ h1.1.1.1, levels_word lvl _ h1.1.2, levels_semi, levels_toksEs es lvl rest hes]
-      | _ => simp [TokWFEs, TokWFV] at h
-    | (.str k, .dict d) :: es, lvl, rest, h => by
-      simp only [TokWFEs, TokWFV, Bool.and_eq_true] at h
-      obtain ⟨⟨⟨⟨hk, _⟩, _⟩, hd⟩, hes⟩ := h
-      simp only [toksEs, ltoksEs, List.cons_append, List.append_assoc, List.nil_append]
-      rw [levels_word lvl _ hk, levels_open lvl '{' _ (by decide), levels_toksEs d (lvl + 1) _ hd,
-        levels_close lvl '}' _ (by decide) (by decide), levels_toksEs es lvl rest hes]
-    | (.str k, .list l) :: es, lvl, rest, h => by
-      simp only [TokWFEs, TokWFV, Bool.and_eq_true] at h
-      obtain ⟨⟨⟨⟨hk, _⟩, _⟩, hd⟩, hes⟩ := h
-      simp only [toksEs, ltoksEs, List.cons_append, List.append_assoc, List.nil_append]
-      rw [levels_word lvl _ hk, levels_open lvl '(' _ (by decide), levels_toksXs l (lvl + 1) _ hd,
-        levels_close lvl ')' _ (by decide) (by decide), levels_semi, levels_toksEs es lvl rest hes]
-  theorem levels_toksXs : ∀ (xs : List Val) (lvl : Int) (rest : List Str), TokWFXs xs = true →
-      levels lvl (toksXs xs ++ rest) = ltoksXs lvl xs ++ levels lvl rest
-    | [], lvl, rest, _ => by simp [toksXs, ltoksXs]
-    | v :: xs, lvl, rest, h => by
-      simp only [TokWFXs, Bool.and_eq_true] at h
-      simp only [toksXs, ltoksXs, List.append_assoc]
-      rw [levels_toksV v lvl _ h.1, levels_toksXs xs lvl rest h.2]
-end
-
-/-- **A.** the level annotation of a generated token stream is the nesting depth -/
-theorem levels_toks (es : Entries) (lvl : Int) (rest : List Str) (h : TokWFEs es = true) :
-    levels lvl (toksEs es ++ rest) = ltoksEs lvl es ++ levels lvl rest := levels_toksEs es lvl rest h
-
-theorem levels_toks_nil (es : Entries) (lvl : Int) (h : TokWFEs es = true) :
-    levels lvl (toksEs es) = ltoksEs lvl es := by
-  simpa [levels] using levels_toks es lvl [] h
-
-/-! ### B. the scanner computes the denotation -/
+/-! ### statement boundaries, backward scans, empty inputs -/
 
 theorem boundary_nil (lvl : Int) : Boundary lvl [] := rfl
 
@@ -426,121 +361,7 @@ theorem pd_nil (top : Bool) (prev : List Tok) (acc : Entries) : parseDictToks to
 theorem pl_nil (lvl : Int) (acc : List Val) : parseListToks lvl [] acc = .ok acc := by
   rw [parseListToks.eq_def]
 
-mutual
-  /-- the scanner invariant over the entries of one dict level -/
-  theorem scanEs : ∀ (es : Entries) (top : Bool) (lvl : Int) (prev rest : List Tok) (acc : Entries),
-      TokWFEs es = true → Boundary lvl prev →
-      parseDictToks top prev (ltoksEs lvl es ++ rest) acc =
-        parseDictToks top ((ltoksEs lvl es).reverse ++ prev) rest (denEs es acc)
-    | [], top, lvl, prev, rest, acc, _, _ => by simp [ltoksEs, denEs]
-    | (.int z, v) :: es, _, _, _, _, _, h, _ => by simp [TokWFEs] at h
-    | (.str k, .leaf x) :: es, top, lvl, prev, rest, acc, h, hB => by
-      cases x with
-      | str w =>
-        simp only [TokWFEs, Bool.and_eq_true] at h
-        obtain ⟨h1, hes⟩ := h
-        simp only [ltoksEs, denEs]
-        by_cases hp : isPhTok k = true
-        · simp only [hp, if_true, Bool.and_eq_true] at h1 ⊢
-          simp only [List.cons_append, List.nil_append]
-          rw [pd_ph top prev lvl k _ acc h1.1 hp,
-            scanEs es top lvl _ rest _ hes (boundary_ph lvl k prev hp)]
-          simp
-        · have hp' : isPhTok k = false := by simpa using hp
-          simp only [hp, if_false, Bool.and_eq_true, Bool.false_eq_true, Bool.not_eq_true',
-            Option.isSome_iff_exists] at h1 ⊢
-          obtain ⟨⟨⟨hk, key, hkey⟩, hw⟩, hwp⟩ := h1
-          simp only [List.cons_append, List.nil_append, hkey]
-          have hkv : kvBefore lvl ((lvl, w) :: (lvl, k) :: prev) = [w, k] := by
-            rw [kvBefore_word lvl w _ hw hwp, kvBefore_word lvl k _ hk hp', hB]
-          rw [pd_word top prev lvl k _ acc hk hp', pd_word top _ lvl w _ acc hw hwp,
-            pd_semi_kv top _ _ lvl _ acc w k key (wordTok_ne_rparenTok hw) hkv hkey,
-            scanEs es top lvl _ rest _ hes (boundary_semi lvl _)]
-          simp
-      | _ => simp [TokWFEs, TokWFV] at h
-    | (.str k, .dict d) :: es, top, lvl, prev, rest, acc, h, hB => by
-      simp only [TokWFEs, TokWFV, Bool.and_eq_true, Bool.not_eq_true', Option.isSome_iff_exists] at h
-      obtain ⟨⟨⟨⟨hk, hkp⟩, key, hkey⟩, hd⟩, hes⟩ := h
-      simp only [ltoksEs, denEs, denV, hkey, List.cons_append, List.append_assoc, List.nil_append]
-      have hsplit := splitGroup_skip ['}'] lvl (ltoksEs (lvl + 1) d) (ltoksEs lvl es ++ rest)
-        (fun t ht => by have := ltoksEs_ge d (lvl + 1) t ht; omega)
-      have hinner : parseDictToks false [] (ltoksEs (lvl + 1) d) [] = .ok (denEs d []) := by
-        have := scanEs d false (lvl + 1) [] [] [] hd (boundary_nil _)
-        simpa [pd_nil] using this
-      rw [pd_word top prev lvl k _ acc hk hkp,
-        pd_brace top _ lvl _ _ _ acc k key _ (keyBefore_word lvl k prev hkp) hsplit hkey hinner,
-        scanEs es top lvl _ rest _ hes (boundary_rbrace lvl _)]
-      simp
-    | (.str k, .list l) :: es, top, lvl, prev, rest, acc, h, hB => by
-      simp only [TokWFEs, TokWFV, Bool.and_eq_true, Bool.not_eq_true', Option.isSome_iff_exists] at h
-      obtain ⟨⟨⟨⟨hk, hkp⟩, key, hkey⟩, hl⟩, hes⟩ := h
-      simp only [ltoksEs, denEs, denV, hkey, List.cons_append, List.append_assoc, List.nil_append]
-      have hsplit := splitGroup_skip [')'] lvl (ltoksXs (lvl + 1) l) ((lvl, [';']) :: (ltoksEs lvl es ++ rest))
-        (fun t ht => by have := ltoksXs_ge l (lvl + 1) t ht; omega)
-      have hinner : parseListToks (lvl + 1) (ltoksXs (lvl + 1) l) [] = .ok (denXs l) := by
-        have := scanXs l (lvl + 1) (lvl + 1) [] [] hl
-        simpa [pl_nil] using this
-      rw [pd_word top prev lvl k _ acc hk hkp,
-        pd_paren top _ lvl _ _ _ _ acc k key _ (keyBefore_word lvl k prev hkp) hsplit hkey hinner,
-        pd_semi_rparen top _ _ lvl _ _ rfl,
-        scanEs es top lvl _ rest _ hes (boundary_semi lvl _)]
-      simp
-  /-- the scanner invariant over the items of a list -/
-  theorem scanXs : ∀ (xs : List Val) (lvl' lvl : Int) (rest : List Tok) (acc : List Val),
-      TokWFXs xs = true →
-      parseListToks lvl' (ltoksXs lvl xs ++ rest) acc = parseListToks lvl' rest (acc ++ denXs xs)
-    | [], _, _, _, _, _ => by simp [ltoksXs, denXs]
-    | .leaf x :: xs, lvl', lvl, rest, acc, h => by
-      cases x with
-      | str w =>
-        simp only [TokWFXs, TokWFV, Bool.and_eq_true] at h
-        simp only [ltoksXs, ltoksV, denXs, denV, List.cons_append, List.nil_append]
-        rw [pl_word lvl' lvl w _ acc h.1.1, scanXs xs lvl' lvl rest _ h.2]
-        simp
-      | _ => simp [TokWFXs, TokWFV] at h
-    | .dict d :: xs, lvl', lvl, rest, acc, h => by
-      simp only [TokWFXs, TokWFV, Bool.and_eq_true] at h
-      simp only [ltoksXs, ltoksV, denXs, denV, List.cons_append, List.append_assoc, List.nil_append]
-      have hsplit := splitGroup_skip ['}'] lvl (ltoksEs (lvl + 1) d) (ltoksXs lvl xs ++ rest)
-        (fun t ht => by have := ltoksEs_ge d (lvl + 1) t ht; omega)
-      have hinner : parseDictToks false [] (ltoksEs (lvl + 1) d) [] = .ok (denEs d []) := by
-        have := scanEs d false (lvl + 1) [] [] [] h.1 (boundary_nil _)
-        simpa [pd_nil] using this
-      rw [pl_brace lvl' lvl _ _ _ acc _ hsplit hinner, scanXs xs lvl' lvl rest _ h.2]
-      simp
-    | .list l :: xs, lvl', lvl, rest, acc, h => by
-      simp only [TokWFXs, TokWFV, Bool.and_eq_true] at h
-      simp only [ltoksXs, ltoksV, denXs, denV, List.cons_append, List.append_assoc, List.nil_append]
-      have hsplit := splitGroup_skip [')'] lvl (ltoksXs (lvl + 1) l) (ltoksXs lvl xs ++ rest)
-        (fun t ht => by have := ltoksXs_ge l (lvl + 1) t ht; omega)
-      have hinner : parseListToks (lvl + 1) (ltoksXs (lvl + 1) l) [] = .ok (denXs l) := by
-        have := scanXs l (lvl + 1) (lvl + 1) [] [] h.1
-        simpa [pl_nil] using this
-      rw [pl_paren lvl' lvl _ _ _ acc _ hsplit hinner, scanXs xs lvl' lvl rest _ h.2]
-      simp
-end
-
-/-- **B (dict).** on the tokens of a well-formed token tree the dict scanner computes the denotation.
-    `Boundary lvl prev0` (decidable; true for `prev0 = []`, the only call pattern of the reader) is needed: see
-    `scan_dict_needs_boundary`. -/
-theorem scan_dict (es : Entries) (top : Bool) (lvl : Int) (prev0 : List Tok) (acc : Entries)
-    (h : TokWFEs es = true) (hB : Boundary lvl prev0) :
-    parseDictToks top prev0 (ltoksEs lvl es) acc = .ok (denEs es acc) := by
-  have := scanEs es top lvl prev0 [] acc h hB
-  simpa [pd_nil] using this
-
-/-- **B (list).** on the tokens of a well-formed item list the list scanner computes the denotation -/
-theorem scan_list (xs : List Val) (lvl' lvl : Int) (acc : List Val) (h : TokWFXs xs = true) :
-    parseListToks lvl' (ltoksXs lvl xs) acc = .ok (acc ++ denXs xs) := by
-  have := scanXs xs lvl' lvl [] acc h
-  simpa [pl_nil] using this
-
-theorem C02_scan (es : Entries) (h : TokWFEs es = true) :
-    parseDictToks true [] (levels 0 (toksEs es)) [] = .ok (denEs es []) := by
-  rw [levels_toks_nil es 0 h]
-  exact scan_dict es true 0 [] [] h (boundary_nil 0)
-
-/-! ### C. layout -/
+/-! ### the tokenizer on white space, words and delimiters -/
 
 /-- `_separate_delimiters`: every delimiter character gets a blank on both sides -/
 def sepD (s : Str) : Str := s.flatMap fun c => if Gen.delimiters.contains c then [' ', c, ' '] else [c]
@@ -694,6 +515,214 @@ theorem gapsOK_len : ∀ (toks gaps : List Str), GapsOK toks gaps = true →
     · left; simpa using h'
     · cases h'
 
+theorem delimTok_facts : isDelimTok ['{'] = true ∧ isDelimTok ['}'] = true ∧ isDelimTok ['('] = true ∧
+    isDelimTok [')'] = true ∧ isDelimTok [';'] = true := by decide
+
+/-! ## theorems -/
+
+/-! ### A. levels -/
+
+mutual
+  theorem levels_toksV : ∀ (v : Val) (lvl : Int) (rest : List Str), TokWFV v = true →
+      levels lvl (toksV v ++ rest) = ltoksV lvl v ++ levels lvl rest
+    | .leaf x, lvl, rest, h => by
+      cases x with
+      | str w =>
+        simp only [TokWFV, Bool.and_eq_true] at h
+        simp only [toksV, ltoksV, List.cons_append, List.nil_append]
+        exact levels_word lvl rest h.1
+      | _ => simp [TokWFV] at h
+    | .dict es, lvl, rest, h => by
+      simp only [TokWFV] at h
+      simp only [toksV, ltoksV, List.cons_append, List.append_assoc, List.nil_append]
+      rw [levels_open lvl '{' _ (by decide), levels_toksEs es (lvl + 1) _ h,
+        levels_close lvl '}' _ (by decide) (by decide)]
+    | .list xs, lvl, rest, h => by
+      simp only [TokWFV] at h
+      simp only [toksV, ltoksV, List.cons_append, List.append_assoc, List.nil_append]
+      rw [levels_open lvl '(' _ (by decide), levels_toksXs xs (lvl + 1) _ h,
+        levels_close lvl ')' _ (by decide) (by decide)]
+  theorem levels_toksEs : ∀ (es : Entries) (lvl : Int) (rest : List Str), TokWFEs es = true →
+      levels lvl (toksEs es ++ rest) = ltoksEs lvl es ++ levels lvl rest
+    | [], lvl, rest, _ => by simp [toksEs, ltoksEs]
+    | (.int z, v) :: es, lvl, rest, h => by simp [TokWFEs] at h
+    | (.str k, .leaf x) :: es, lvl, rest, h => by
+      cases x with
+      | str w =>
+        simp only [TokWFEs, Bool.and_eq_true] at h
+        obtain ⟨h1, hes⟩ := h
+        simp only [toksEs, ltoksEs]
+        by_cases hp : isPhTok k = true
+        · simp only [hp, if_true, Bool.and_eq_true] at h1 ⊢
+          simp only [List.cons_append, List.nil_append]
+          rw [levels_word lvl _ h1.1, levels_toksEs es lvl rest hes]
+        · simp only [hp, if_false, Bool.and_eq_true, Bool.false_eq_true] at h1 ⊢
+          simp only [List.cons_append, List.nil_append]
+          rw [levels_word lvl _ h1.1.1.1, levels_word lvl _ h1.1.2, levels_semi, levels_toksEs es lvl rest hes]
+      | _ => simp [TokWFEs, TokWFV] at h
+    | (.str k, .dict d) :: es, lvl, rest, h => by
+      simp only [TokWFEs, TokWFV, Bool.and_eq_true] at h
+      obtain ⟨⟨⟨⟨hk, _⟩, _⟩, hd⟩, hes⟩ := h
+      simp only [toksEs, ltoksEs, List.cons_append, List.append_assoc, List.nil_append]
+      rw [levels_word lvl _ hk, levels_open lvl '{' _ (by decide), levels_toksEs d (lvl + 1) _ hd,
+        levels_close lvl '}' _ (by decide) (by decide), levels_toksEs es lvl rest hes]
+    | (.str k, .list l) :: es, lvl, rest, h => by
+      simp only [TokWFEs, TokWFV, Bool.and_eq_true] at h
+      obtain ⟨⟨⟨⟨hk, _⟩, _⟩, hd⟩, hes⟩ := h
+      simp only [toksEs, ltoksEs, List.cons_append, List.append_assoc, List.nil_append]
+      rw [levels_word lvl _ hk, levels_open lvl '(' _ (by decide), levels_toksXs l (lvl + 1) _ hd,
+        levels_close lvl ')' _ (by decide) (by decide), levels_semi, levels_toksEs es lvl rest hes]
+  theorem levels_toksXs : ∀ (xs : List Val) (lvl : Int) (rest : List Str), TokWFXs xs = true →
+      levels lvl (toksXs xs ++ rest) = ltoksXs lvl xs ++ levels lvl rest
+    | [], lvl, rest, _ => by simp [toksXs, ltoksXs]
+    | v :: xs, lvl, rest, h => by
+      simp only [TokWFXs, Bool.and_eq_true] at h
+      simp only [toksXs, ltoksXs, List.append_assoc]
+      rw [levels_toksV v lvl _ h.1, levels_toksXs xs lvl rest h.2]
+end
+
+/-- **A.** the level annotation of a generated token stream is the nesting depth -/
+theorem levels_toks (es : Entries) (lvl : Int) (rest : List Str) (h : TokWFEs es = true) :
+    levels lvl (toksEs es ++ rest) = ltoksEs lvl es ++ levels lvl rest := levels_toksEs es lvl rest h
+
+theorem levels_toks_nil (es : Entries) (lvl : Int) (h : TokWFEs es = true) :
+    levels lvl (toksEs es) = ltoksEs lvl es := by
+  simpa [levels] using levels_toks es lvl [] h
+
+/-! ### B. the scanner computes the denotation -/
+
+mutual
+  /-- the scanner invariant over the entries of one dict level -/
+  theorem scanEs : ∀ (es : Entries) (top : Bool) (lvl : Int) (prev rest : List Tok) (acc : Entries),
+      TokWFEs es = true → Boundary lvl prev →
+      parseDictToks top prev (ltoksEs lvl es ++ rest) acc =
+        parseDictToks top ((ltoksEs lvl es).reverse ++ prev) rest (denEs es acc)
+    | [], top, lvl, prev, rest, acc, _, _ => by simp [ltoksEs, denEs]
+    | (.int z, v) :: es, _, _, _, _, _, h, _ => by simp [TokWFEs] at h
+    | (.str k, .leaf x) :: es, top, lvl, prev, rest, acc, h, hB => by
+      cases x with
+      | str w =>
+        simp only [TokWFEs, Bool.and_eq_true] at h
+        obtain ⟨h1, hes⟩ := h
+        simp only [ltoksEs, denEs]
+        by_cases hp : isPhTok k = true
+        · simp only [hp, if_true, Bool.and_eq_true] at h1 ⊢
+          simp only [List.cons_append, List.nil_append]
+          rw [pd_ph top prev lvl k _ acc h1.1 hp,
+            scanEs es top lvl _ rest _ hes (boundary_ph lvl k prev hp)]
+          simp
+        · have hp' : isPhTok k = false := by simpa using hp
+          simp only [hp, if_false, Bool.and_eq_true, Bool.false_eq_true, Bool.not_eq_true',
+            Option.isSome_iff_exists] at h1 ⊢
+          obtain ⟨⟨⟨hk, key, hkey⟩, hw⟩, hwp⟩ := h1
+          simp only [List.cons_append, List.nil_append, hkey]
+          have hkv : kvBefore lvl ((lvl, w) :: (lvl, k) :: prev) = [w, k] := by
+            rw [kvBefore_word lvl w _ hw hwp, kvBefore_word lvl k _ hk hp', hB]
+          rw [pd_word top prev lvl k _ acc hk hp', pd_word top _ lvl w _ acc hw hwp,
+            pd_semi_kv top _ _ lvl _ acc w k key (wordTok_ne_rparenTok hw) hkv hkey,
+            scanEs es top lvl _ rest _ hes (boundary_semi lvl _)]
+          simp
+      | _ => simp [TokWFEs, TokWFV] at h
+    | (.str k, .dict d) :: es, top, lvl, prev, rest, acc, h, hB => by
+      simp only [TokWFEs, TokWFV, Bool.and_eq_true, Bool.not_eq_true', Option.isSome_iff_exists] at h
+      obtain ⟨⟨⟨⟨hk, hkp⟩, key, hkey⟩, hd⟩, hes⟩ := h
+      simp only [ltoksEs, denEs, denV, hkey, List.cons_append, List.append_assoc, List.nil_append]
+      have hsplit := splitGroup_skip ['}'] lvl (ltoksEs (lvl + 1) d) (ltoksEs lvl es ++ rest)
+        (fun t ht => by have := ltoksEs_ge d (lvl + 1) t ht; omega)
+      have hinner : parseDictToks false [] (ltoksEs (lvl + 1) d) [] = .ok (denEs d []) := by
+        have := scanEs d false (lvl + 1) [] [] [] hd (boundary_nil _)
+        simpa [pd_nil] using this
+      rw [pd_word top prev lvl k _ acc hk hkp,
+        pd_brace top _ lvl _ _ _ acc k key _ (keyBefore_word lvl k prev hkp) hsplit hkey hinner,
+        scanEs es top lvl _ rest _ hes (boundary_rbrace lvl _)]
+      simp
+    | (.str k, .list l) :: es, top, lvl, prev, rest, acc, h, hB => by
+      simp only [TokWFEs, TokWFV, Bool.and_eq_true, Bool.not_eq_true', Option.isSome_iff_exists] at h
+      obtain ⟨⟨⟨⟨hk, hkp⟩, key, hkey⟩, hl⟩, hes⟩ := h
+      simp only [ltoksEs, denEs, denV, hkey, List.cons_append, List.append_assoc, List.nil_append]
+      have hsplit := splitGroup_skip [')'] lvl (ltoksXs (lvl + 1) l) ((lvl, [';']) :: (ltoksEs lvl es ++ rest))
+        (fun t ht => by have := ltoksXs_ge l (lvl + 1) t ht; omega)
+      have hinner : parseListToks (lvl + 1) (ltoksXs (lvl + 1) l) [] = .ok (denXs l) := by
+        have := scanXs l (lvl + 1) (lvl + 1) [] [] hl
+        simpa [pl_nil] using this
+      rw [pd_word top prev lvl k _ acc hk hkp,
+        pd_paren top _ lvl _ _ _ _ acc k key _ (keyBefore_word lvl k prev hkp) hsplit hkey hinner,
+        pd_semi_rparen top _ _ lvl _ _ rfl,
+        scanEs es top lvl _ rest _ hes (boundary_semi lvl _)]
+      simp
+  /-- the scanner invariant over the items of a list -/
+  theorem scanXs : ∀ (xs : List Val) (lvl' lvl : Int) (rest : List Tok) (acc : List Val),
+      TokWFXs xs = true →
+      parseListToks lvl' (ltoksXs lvl xs ++ rest) acc = parseListToks lvl' rest (acc ++ denXs xs)
+    | [], _, _, _, _, _ => by simp [ltoksXs, denXs]
+    | .leaf x :: xs, lvl', lvl, rest, acc, h => by
+      cases x with
+      | str w =>
+        simp only [TokWFXs, TokWFV, Bool.and_eq_true] at h
+        simp only [ltoksXs, ltoksV, denXs, denV, List.cons_append, List.nil_append]
+        rw [pl_word lvl' lvl w _ acc h.1.1, scanXs xs lvl' lvl rest _ h.2]
+        simp
+      | _ => simp [TokWFXs, TokWFV] at h
+    | .dict d :: xs, lvl', lvl, rest, acc, h => by
+      simp only [TokWFXs, TokWFV, Bool.and_eq_true] at h
+      simp only [ltoksXs, ltoksV, denXs, denV, List.cons_append, List.append_assoc, List.nil_append]
+      have hsplit := splitGroup_skip ['}'] lvl (ltoksEs (lvl + 1) d) (ltoksXs lvl xs ++ rest)
+        (fun t ht => by have := ltoksEs_ge d (lvl + 1) t ht; omega)
+      have hinner : parseDictToks false [] (ltoksEs (lvl + 1) d) [] = .ok (denEs d []) := by
+        have := scanEs d false (lvl + 1) [] [] [] h.1 (boundary_nil _)
+        simpa [pd_nil] using this
+      rw [pl_brace lvl' lvl _ _ _ acc _ hsplit hinner, scanXs xs lvl' lvl rest _ h.2]
+      simp
+    | .list l :: xs, lvl', lvl, rest, acc, h => by
+      simp only [TokWFXs, TokWFV, Bool.and_eq_true] at h
+      simp only [ltoksXs, ltoksV, denXs, denV, List.cons_append, List.append_assoc, List.nil_append]
+      have hsplit := splitGroup_skip [')'] lvl (ltoksXs (lvl + 1) l) (ltoksXs lvl xs ++ rest)
+        (fun t ht => by have := ltoksXs_ge l (lvl + 1) t ht; omega)
+      have hinner : parseListToks (lvl + 1) (ltoksXs (lvl + 1) l) [] = .ok (denXs l) := by
+        have := scanXs l (lvl + 1) (lvl + 1) [] [] h.1
+        simpa [pl_nil] using this
+      rw [pl_paren lvl' lvl _ _ _ acc _ hsplit hinner, scanXs xs lvl' lvl rest _ h.2]
+      simp
+end
+
+/-- **B (dict).** on the tokens of a well-formed token tree the dict scanner computes the denotation.
+    `Boundary lvl prev0` (decidable; true for `prev0 = []`, the only call pattern of the reader) is needed: see
+    `scan_dict_needs_boundary`. -/
+theorem scan_dict (es : Entries) (top : Bool) (lvl : Int) (prev0 : List Tok) (acc : Entries)
+    (h : TokWFEs es = true) (hB : Boundary lvl prev0) :
+    parseDictToks top prev0 (ltoksEs lvl es) acc = .ok (denEs es acc) := by
+  have := scanEs es top lvl prev0 [] acc h hB
+  simpa [pd_nil] using this
+
+/-- Without `Boundary` the statement is false: a stray word of the same level right before the first entry is
+    swept up by the backward scan from `;`, which then finds three tokens instead of two and drops the entry.
+    (`prev0 = [(0, x)]`, entries `k w ;`: the scanner returns `{}`, the denotation is `{k: w}`.)
+    The reader never calls the scanner this way: it starts with `prev = []`. -/
+theorem scan_dict_needs_boundary :
+    ¬ ∀ (es : Entries) (top : Bool) (lvl : Int) (prev0 : List Tok) (acc : Entries), TokWFEs es = true →
+      parseDictToks top prev0 (ltoksEs lvl es) acc = .ok (denEs es acc) := by
+  intro h
+  have h1 := h [(.str ['k'], .leaf (.str ['w']))] true 0 [(0, ['x'])] [] (by decide)
+  have e : ltoksEs 0 [(.str ['k'], .leaf (.str ['w']))] = [(0, ['k']), (0, ['w']), (0, [';'])] := by decide
+  have hkv : kvBefore 0 [(0, ['w']), (0, ['k']), (0, ['x'])] = [['w'], ['k'], ['x']] := by decide
+  have hd : denEs [(.str ['k'], .leaf (.str ['w']))] [] = [(.str ['k'], .leaf (.str ['w']))] := by decide
+  rw [e, hd, pd_word _ _ _ _ _ _ (by decide) (by decide), pd_word _ _ _ _ _ _ (by decide) (by decide),
+    parseDictToks.eq_def] at h1
+  simp [Gen.openingBrackets, hkv, pd_nil] at h1
+
+/-- **B (list).** on the tokens of a well-formed item list the list scanner computes the denotation -/
+theorem scan_list (xs : List Val) (lvl' lvl : Int) (acc : List Val) (h : TokWFXs xs = true) :
+    parseListToks lvl' (ltoksXs lvl xs) acc = .ok (acc ++ denXs xs) := by
+  have := scanXs xs lvl' lvl [] acc h
+  simpa [pl_nil] using this
+
+theorem C02_scan (es : Entries) (h : TokWFEs es = true) :
+    parseDictToks true [] (levels 0 (toksEs es)) [] = .ok (denEs es []) := by
+  rw [levels_toks_nil es 0 h]
+  exact scan_dict es true 0 [] [] h (boundary_nil 0)
+
+/-! ### C. layout -/
+
 /-- **C.** delimiter separation followed by white-space splitting recovers the token list of any admissible
     layout, whatever the amount and kind of white space. -/
 theorem tokenize_spread (toks gaps : List Str) (tail : Str)
@@ -706,9 +735,6 @@ theorem tokenize_spread (toks gaps : List Str) (tail : Str)
   · have : spread [t] [] tail = spread [t] [[]] tail := by simp [spread]
     rw [this]
     simpa [flush] using go_spread [t] [[]] tail [] htoks (by simp) (by simp [GapsOK]) htail (Or.inl rfl)
-
-theorem delimTok_facts : isDelimTok ['{'] = true ∧ isDelimTok ['}'] = true ∧ isDelimTok ['('] = true ∧
-    isDelimTok [')'] = true ∧ isDelimTok [';'] = true := by decide
 
 mutual
   theorem toksV_word_or_delim : ∀ (v : Val), TokWFV v = true →
@@ -863,5 +889,21 @@ theorem ex_loose : parseDictToks true [] (levels 0 (tokenize
     .ok (denEs exTree []) := by
   rw [← exLoose_text]
   exact C02_layout_tolerant_tokens exTree exGapsLoose ['\r', '\n'] exTree_wf exGapsLoose_ok (by decide)
+
+/-! ### remark: why `TokWF` excludes placeholder words as keys and scalars
+
+  The scanner recognises comment / include placeholders by *substring* (`isCommentTok`, `isIncludeTok`), so an
+  ordinary word that merely contains `COMMENT` or `INCLUDE` is taken for a placeholder: in `k MYINCLUDE;` the
+  value is stored as an entry of its own and the backward scan from `;` stops at it, so `k` is lost.
+  `TokWF` (Grammar) therefore demands `!isPhTok` of keys and scalars; the witness shows the demand is needed. -/
+theorem ph_word_not_denoted :
+    parseDictToks true [] (levels 0 (tokenize "k MYINCLUDE;".toList)) [] =
+      .ok [(.str ['M', 'Y', 'I', 'N', 'C', 'L', 'U', 'D', 'E'], .leaf (.str ['M', 'Y', 'I', 'N', 'C', 'L', 'U', 'D', 'E']))] := by
+  have e : levels 0 (tokenize "k MYINCLUDE;".toList) =
+      [(0, ['k']), (0, ['M', 'Y', 'I', 'N', 'C', 'L', 'U', 'D', 'E']), (0, [';'])] := by decide
+  have hkv : kvBefore 0 [(0, ['M', 'Y', 'I', 'N', 'C', 'L', 'U', 'D', 'E']), (0, ['k'])] = [] := by decide
+  rw [e, pd_word _ _ _ _ _ _ (by decide) (by decide), pd_ph _ _ _ _ _ _ (by decide) (by decide),
+    parseDictToks.eq_def]
+  simp [Gen.openingBrackets, hkv, pd_nil, setKey]
 
 end DictIO.C02
